@@ -1,6 +1,6 @@
 // C16: session keys cannot exceed their spend limit or allowed actions.
 //
-// Real gno.land app (engine chainx). A master account M creates a session for key S1 (two grant variants:
+// Real gno.land app (engine chainx). Part A: a master account M creates a session for key S1 (two grant variants:
 // V1 = limit 10M ugnot per 100 s period, no expiry, allow-paths {bank/send, vm/exec:gno.land/r/verif/coin};
 // V2 = lifetime limit 10M ugnot, expiry 300 s after creation, allow-paths {*}); then every history (breadth-first over
 // the states of a small reference model, <=4 (quick) / <=6 (thorough) state-changing steps including the creation) over
@@ -11,6 +11,16 @@
 //   master's coins through the banker; MsgCreateSession / MsgRevokeSession signed by the session;
 //   master-signed: revoke, re-create; time: next block (+5 s), +P-1, +P (V1) / +E-1, +E (V2).
 //
+// Part B (spend periods and idle gaps; long-lived chains, one fresh session instance per history, snapshots): grant with a
+// 100 s period (and one with a lifetime cap): [pre-phase: nothing | spend 5M | spend the whole limit | a spend that re-anchored
+// the window once] ; idle gap of {0, <1, 1 period -1s/exact/+1s, 2 periods -1s/exact/+1s, 3.5, 10, ~1000 periods} ; then depth-
+// first (<=3 quick / <=4 thorough steps, every op executed at every node) over 5 kinds of spend (send, send of the whole limit,
+// vm call with coins, storage deposit, large fee); and two-gap histories gap ; spend ; gap ; depth-first spends.
+// Part C (allow-list, multi-message txs): 6 grants ({bank/send,vm/exec:coin}, {vm/exec:coin}, {vm/exec:coinx,vm/run}, {*},
+// {vm/exec}, {vm/exec:coin/sub,bank/send}) x every message tuple of length 1..3 over 8 kinds (send, call coin, call coin/sub
+// (a sub-path), call coinx (look-alike), run, addpkg, auth.create-session, a CO-SIGNER's own call), every order, 3M ugnot each
+// (fee + 3 x 3M = the limit exactly), from the fresh session and (length <=2) from "5M used"; through the real app.
+//
 // Oracle (independent of the implementation's SpendUsed bookkeeping; everything is measured on the chain):
 //   (a) ledger: for every session-signed tx that changed the state, outflow = max(0, master balance before - after) per
 //       denom; it is added to the current spend window (the window starts at the session creation; the first effective
@@ -18,8 +28,9 @@
 //       never exceed the limit (denoms without a limit: 0);
 //   (b) a session-signed tx delivered when the session is revoked, not (yet/any more) existing, or expired
 //       (block time >= expiry) must fail and leave both stores unchanged (not even a fee);
-//   (c) a session-signed tx containing a message outside the grant (auth/* and vm/add_package never; else an entry "*",
-//       "<route>/<type>" or "vm/exec:<path>" with path equal or a sub-path) must fail and leave both stores unchanged.
+//   (c) a session-signed tx containing a message OF THE MASTER outside the grant (auth/* and vm/add_package never; else an
+//       entry "*", "<route>/<type>" or "vm/exec:<path>" with path equal or a sub-path) must fail and leave both stores
+//       unchanged, whatever else the tx contains and in whatever order.
 // The reference model only steers the exploration (which steps change the state) and labels outcomes; where the
 // implementation is STRICTER than it, that is recorded as an observation, never as a violation.
 package main
@@ -28,6 +39,7 @@ import (
 	"fmt"
 	"os"
 	"runtime/debug"
+	"runtime/pprof"
 	"sort"
 	"strings"
 	"sync"
@@ -99,11 +111,17 @@ var (
 	keys   = []chainx.Key{M, B}
 )
 
-func spec() chainx.Spec {
+// spec: genesis with the realms coin and coinx; withSub adds coin/sub (a SUB-path of coin) for the allow-list part.
+func spec(withSub bool) chainx.Spec {
 	s := chainx.Spec{Keys: keys, Fund: fund, ExtraCoins: std.Coins{std.NewCoin("atom", 1000)}}
-	for _, p := range []string{"coin", "coinx"} {
+	paths := []string{"coin", "coinx"}
+	if withSub {
+		paths = append(paths, "coin/sub")
+	}
+	for _, p := range paths {
+		name := p[strings.LastIndexByte(p, '/')+1:]
 		s.GenesisTxs = append(s.GenesisTxs, std.Tx{
-			Msgs:       []std.Msg{chainx.AddPkg(B.Addr, "gno.land/r/verif/"+p, map[string]string{p + ".gno": fmt.Sprintf(realmSrc, p, p)})},
+			Msgs:       []std.Msg{chainx.AddPkg(B.Addr, "gno.land/r/verif/"+p, map[string]string{name + ".gno": fmt.Sprintf(realmSrc, name, p)})},
 			Fee:        std.NewFee(100_000_000, std.NewCoin("ugnot", fee)),
 			Signatures: []std.Signature{{}},
 		})
@@ -130,6 +148,9 @@ var variants = []variant{
 
 // granted: own reading of the allow-path rules for one message.
 func granted(paths []string, msg std.Msg) bool {
+	if !signedBy(msg, M.Addr) {
+		return true // a co-signer's own message: the master's session grant does not apply to it
+	}
 	if msg.Route() == "auth" || (msg.Route() == "vm" && msg.Type() == "add_package") {
 		return false
 	}
@@ -145,6 +166,15 @@ func granted(paths []string, msg std.Msg) bool {
 			return true
 		}
 		if c, ok := msg.(vm.MsgCall); ok && (c.PkgPath == path || strings.HasPrefix(c.PkgPath, path+"/")) {
+			return true
+		}
+	}
+	return false
+}
+
+func signedBy(msg std.Msg, a crypto.Address) bool {
+	for _, s := range msg.GetSigners() {
+		if s == a {
 			return true
 		}
 	}
@@ -375,6 +405,7 @@ type env struct {
 	t0      time.Time
 	layers  [2]map[string]lval
 	bad     bool
+	lastLabel string // parts B/C: the history that created the current session instance on this chain
 	// safety ledger (measured)
 	sessLive     bool // a create succeeded and no revoke since (as observed from tx results)
 	sessCreated  int64
@@ -395,8 +426,10 @@ var (
 	stateSet                  sync.Map
 )
 
-func newEnv(v variant) *env {
-	c, err := chainx.New(memdb.NewMemDB(), spec())
+func newEnv(v variant) *env { return newEnvSpec(v, false) }
+
+func newEnvSpec(v variant, withSub bool) *env {
+	c, err := chainx.New(memdb.NewMemDB(), spec(withSub))
 	if err != nil {
 		r.HarnessError("chain init: %v", err)
 	}
@@ -465,30 +498,39 @@ func (e *env) sessionAcc() std.Account {
 	return acc
 }
 
-// signing
+// signing: the master signs with the session key S1 (session ops) or its own key (master ops); a co-signer B signs plainly.
 func (e *env) makeTx(op opDef) std.Tx {
 	msgs := op.msgs(e)
 	gas := int64(60_000_000)
 	tx := std.Tx{Msgs: msgs, Fee: std.NewFee(gas, std.NewCoin("ugnot", op.fee)), Memo: ""}
-	var num, seq uint64
-	var k chainx.Key
-	var sessAddr crypto.Address
-	if op.kind == "session" {
-		k, sessAddr = S1, S1.Addr
-		if sa := e.sessionAcc(); sa != nil {
-			num, seq = sa.GetAccountNumber(), sa.GetSequence()
+	for _, signer := range tx.GetSigners() {
+		var num, seq uint64
+		var k chainx.Key
+		var sessAddr crypto.Address
+		switch {
+		case signer == M.Addr && op.kind == "session":
+			k, sessAddr = S1, S1.Addr
+			if sa := e.sessionAcc(); sa != nil {
+				num, seq = sa.GetAccountNumber(), sa.GetSequence()
+			}
+		case signer == M.Addr:
+			k = M
+			ai := e.c.Account(M.Addr)
+			num, seq = ai.Num, ai.Seq
+		case signer == B.Addr:
+			k = B
+			ai := e.c.Account(B.Addr)
+			num, seq = ai.Num, ai.Seq
+		default:
+			panic("no key for signer")
 		}
-	} else {
-		k = M
-		ai := e.c.Account(M.Addr)
-		num, seq = ai.Num, ai.Seq
+		sb, err := tx.GetSignBytes(chainx.ChainID, num, seq)
+		if err != nil {
+			panic(err)
+		}
+		sig, _ := k.Priv.Sign(sb)
+		tx.Signatures = append(tx.Signatures, std.Signature{PubKey: k.Pub, Signature: sig, SessionAddr: sessAddr})
 	}
-	sb, err := tx.GetSignBytes(chainx.ChainID, num, seq)
-	if err != nil {
-		panic(err)
-	}
-	sig, _ := k.Priv.Sign(sb)
-	tx.Signatures = []std.Signature{{PubKey: k.Pub, Signature: sig, SessionAddr: sessAddr}}
 	return tx
 }
 
@@ -612,6 +654,316 @@ func (e *env) apply(op opDef, label string, predicted bool) bool {
 	return changed
 }
 
+
+// ---- parts B and C: long-lived chains, one session instance per history, snapshots ---------------------------------------
+//
+// Parts B and C run MANY short histories per chain. A history starts by revoking the previous session instance (if any) and
+// creating a new one (new account number, sequence 0, SpendUsed 0, SpendReset = block time): everything the property
+// talks about lives in that session record and in the measured balance of the master, so histories on one chain are
+// independent. Block time only moves forward. Within the last block of a history the spends are explored depth-first
+// with snapshots (chainx.Push: a cache layer stacked on the deliver state, rolled back afterwards).
+
+func (e *env) push() (pop func()) {
+	popChain := e.c.Push()
+	saved := *e
+	wo := make(map[string]int64, len(e.windowOut))
+	for k, v := range e.windowOut {
+		wo[k] = v
+	}
+	e.layers = e.readLayers()
+	return func() {
+		popChain()
+		*e = saved
+		e.windowOut = wo
+	}
+}
+
+var (
+	opByName = map[string]opDef{}
+	opRevoke opDef
+	opCreate opDef
+)
+
+func initOps(ops []opDef) {
+	for _, op := range ops {
+		opByName[op.name] = op
+	}
+	opRevoke, opCreate = opByName["m:revoke(S1)"], opByName["m:create(S1)"]
+	if opRevoke.msgs == nil || opCreate.msgs == nil {
+		r.HarnessError("alphabet lacks create/revoke")
+	}
+}
+
+func timeOp(adv int64) opDef { return opDef{name: fmt.Sprintf("t:+%ds", adv), kind: "time", adv: adv} }
+
+// startHistory: a fresh session instance of grant v on this chain; false if the chain cannot be used any more.
+// The previous instance is revoked by its master first, and — every time — the revoked instance is then tried once more:
+// it must not authorize anything any longer (oracle (b)).
+func (e *env) startHistory(v variant, label string) bool {
+	if e.sessionAcc() != nil {
+		prev := strings.TrimSuffix(e.lastLabel, "]") + " ; m:revoke(S1)"
+		e.apply(opRevoke, prev+"]", false)
+		if e.sessLive {
+			r.HarnessError("the master's revoke of the previous session instance failed: %s", prev)
+		}
+		pop := e.push()
+		e.apply(opByName["s:send(4M)"], prev+" ; s:send(4M)]", false)
+		bad := e.bad
+		pop()
+		if bad || e.sessionAcc() != nil {
+			return false // (reported above if a tx went through; a record that survives its revoke makes the chain unusable)
+		}
+	}
+	e.v, e.t0, e.now = v, e.c.LastTime, 0
+	e.sessLive, e.windowOut, e.bad = false, map[string]int64{}, false
+	e.layers = e.readLayers()
+	e.lastLabel = label
+	e.apply(opCreate, label, false)
+	if !e.sessLive {
+		r.HarnessError("session creation failed: %s", label)
+	}
+	return !e.bad
+}
+
+// dfs: from the current state execute every op (in a snapshot); descend below the ones that changed the state.
+func (e *env) dfs(ops []opDef, prefix string, depth int) {
+	for _, op := range ops {
+		label := prefix + " ; " + op.name
+		r.Distinct(label + "]")
+		pop := e.push()
+		if e.apply(op, label+"]", false) && !e.bad && depth > 1 {
+			e.dfs(ops, label, depth-1)
+		}
+		pop()
+	}
+}
+
+// ---- part B: spend periods and idle gaps ------------------------------------------------------------------------------------
+
+type bHist struct {
+	v     variant
+	steps []opDef // executed for real (committed), in order; time ops move to a new block
+	depth int     // then: depth-first over spendOps to this depth
+}
+
+func (h bHist) label() string {
+	s := []string{"m:create(S1)"}
+	for _, op := range h.steps {
+		s = append(s, op.name)
+	}
+	return h.v.name[:3] + ":[" + strings.Join(s, " ; ")
+}
+
+var variantsB = []variant{
+	{name: "VB1(limit10M/100s,no-expiry)", period: P, paths: []string{"bank/send", "vm/exec:" + coinPath}, limit: ug(L)},
+	{name: "VB2(limit10M-lifetime,no-expiry)", paths: []string{"bank/send", "vm/exec:" + coinPath}, limit: ug(L)},
+}
+
+func spendOps() []opDef {
+	var out []opDef
+	for _, n := range []string{"s:send(4M)", "s:send(L-fee)", "s:call(coin.Deposit,Send4M)", "s:call(coin.Grow20)", "s:send(1),fee6M"} {
+		op, ok := opByName[n]
+		if !ok {
+			r.HarnessError("no op %s", n)
+		}
+		out = append(out, op)
+	}
+	return out
+}
+
+// historiesB: [pre-phase] ; idle gap g1 ; (depth-first spends)   and   gap g1 ; one spend ; gap g2 ; (depth-first spends).
+// Gaps are chosen around the multiples of the period: none, <1, exactly 1 (-1/0/+1), just below / at / above 2, between 3 and
+// 4, 10 and ~1000 periods.
+func historiesB() []bHist {
+	op := func(n string) opDef { return opByName[n] }
+	gaps := []int64{0, 5, P - 1, P, P + 1, 2*P - 1, 2 * P, 2*P + 1, 3*P + 50, 10 * P, 1000*P + 7}
+	pres := [][]opDef{
+		nil,
+		{op("s:send(4M)")},
+		{op("s:send(L-fee)")},
+		{timeOp(P + 30), op("s:send(4M)")}, // the window was re-anchored once already (off the creation time)
+	}
+	depth1, depth2 := 3, 2
+	gaps2a, gaps2b := []int64{P - 1, P, 2*P + 1, 1000*P + 7}, []int64{5, P - 1, P, 2*P + 1}
+	if r.Thorough() {
+		depth1, depth2 = 4, 3
+		gaps2a, gaps2b = gaps, gaps[1:]
+	}
+	var out []bHist
+	for _, pre := range pres {
+		for _, g := range gaps {
+			steps := append([]opDef{}, pre...)
+			if g > 0 {
+				steps = append(steps, timeOp(g))
+			}
+			out = append(out, bHist{variantsB[0], steps, depth1})
+		}
+	}
+	for _, g1 := range gaps2a {
+		for _, x := range []string{"s:send(4M)", "s:send(L-fee)"} {
+			for _, g2 := range gaps2b {
+				out = append(out, bHist{variantsB[0], []opDef{timeOp(g1), op(x), timeOp(g2)}, depth2})
+			}
+		}
+	}
+	// a lifetime cap: no gap may ever refresh it
+	for _, pre := range pres[:3] {
+		for _, g := range []int64{5, P, 2*P + 1, 1000*P + 7} {
+			out = append(out, bHist{variantsB[1], append(append([]opDef{}, pre...), timeOp(g)), depth2})
+		}
+	}
+	return out
+}
+
+func runB(e *env, h bHist, ops []opDef) bool {
+	label := h.label()
+	if !e.startHistory(h.v, label+"]") {
+		return false
+	}
+	r.Distinct(label + "]")
+	for k, op := range h.steps {
+		var s []string
+		for _, o := range h.steps[:k+1] {
+			s = append(s, o.name)
+		}
+		e.apply(op, h.v.name[:3]+":[m:create(S1) ; "+strings.Join(s, " ; ")+"]", false)
+		if e.bad {
+			return false // (a violation in the committed prefix: this chain is not used any further)
+		}
+	}
+	e.dfs(ops, label, h.depth)
+	return true
+}
+
+// ---- part C: multi-message transactions against the allow-list ------------------------------------------------------------
+
+const subPath = "gno.land/r/verif/coin/sub"
+
+var variantsC = []variant{
+	{name: "G1{bank/send,vm/exec:coin}", paths: []string{"bank/send", "vm/exec:" + coinPath}, limit: ug(L)},
+	{name: "G2{vm/exec:coin}", paths: []string{"vm/exec:" + coinPath}, limit: ug(L)},
+	{name: "G3{vm/exec:coinx,vm/run}", paths: []string{"vm/exec:" + coinxPath, "vm/run"}, limit: ug(L)},
+	{name: "G4{*}", paths: []string{"*"}, limit: ug(L)},
+	{name: "G5{vm/exec}", paths: []string{"vm/exec"}, limit: ug(L)},
+	{name: "G6{vm/exec:coin/sub,bank/send}", paths: []string{"vm/exec:" + subPath, "bank/send"}, limit: ug(L)},
+}
+
+type mkind struct {
+	name string
+	mk   func(amt int64) std.Msg
+}
+
+func runScriptAmt(amt int64) string {
+	return fmt.Sprintf(`package main
+
+import (
+	"chain"
+	"chain/banker"
+)
+
+func main(cur realm) {
+	banker.NewBanker(banker.BankerTypeRealmSend, cur).SendCoins(cur.Address(), address("%s"), chain.Coins{{"ugnot", %d}})
+}
+`, B.Addr.String(), amt)
+}
+
+func msgKinds() []mkind {
+	return []mkind{
+		{"send", func(a int64) std.Msg { return bank.MsgSend{FromAddress: M.Addr, ToAddress: B.Addr, Amount: ug(a)} }},
+		{"call(coin)", func(a int64) std.Msg { return chainx.Call(M.Addr, ug(a), coinPath, "Deposit") }},
+		{"call(coin/sub)", func(a int64) std.Msg { return chainx.Call(M.Addr, ug(a), subPath, "Deposit") }},
+		{"call(coinx)", func(a int64) std.Msg { return chainx.Call(M.Addr, ug(a), coinxPath, "Deposit") }},
+		{"run", func(a int64) std.Msg { return chainx.Run(M.Addr, nil, runScriptAmt(a)) }},
+		{"addpkg", func(a int64) std.Msg {
+			return chainx.AddPkg(M.Addr, "gno.land/r/verif/bysession", map[string]string{"a.gno": "package bysession\n\nvar X = 1\n"})
+		}},
+		{"auth.create-session(S2)", func(a int64) std.Msg {
+			return auth.MsgCreateSession{Creator: M.Addr, SessionKey: S2.Pub, AllowPaths: []string{"*"}, SpendLimit: ug(fund)}
+		}},
+		{"B:call(coinx)", func(a int64) std.Msg { return chainx.Call(B.Addr, ug(1), coinxPath, "Deposit") }}, // a co-signer's own message
+	}
+}
+
+const amtC = int64(3_000_000) // fee 1M + 3 x 3M = the limit exactly
+
+// tuplesC: all message tuples of length 1..maxLen over the kinds (those without any message of the master are dropped).
+func tuplesC(nk, maxLen int) [][]int {
+	var out [][]int
+	var rec func(cur []int)
+	rec = func(cur []int) {
+		if len(cur) > 0 {
+			master := false
+			for _, k := range cur {
+				if k != nk-1 {
+					master = true
+				}
+			}
+			if master {
+				out = append(out, append([]int{}, cur...))
+			}
+		}
+		if len(cur) == maxLen {
+			return
+		}
+		for k := 0; k < nk; k++ {
+			rec(append(cur, k))
+		}
+	}
+	rec(nil)
+	return out
+}
+
+type cTask struct {
+	v      variant
+	warm   bool // start from "5M of the limit used" instead of the fresh session
+	tuples [][]int
+}
+
+func runC(e *env, t cTask, kinds []mkind) bool {
+	head := t.v.name[:2] + ":[m:create(S1)"
+	if !e.startHistory(t.v, head+"]") {
+		return false
+	}
+	if t.warm {
+		// 5M of the limit used up front, by the first kind of spend the grant permits
+		var wop *opDef
+		for _, k := range kinds[:4] {
+			k := k
+			if granted(t.v.paths, k.mk(1)) {
+				wop = &opDef{name: "s:{" + k.name + "(4M)}", kind: "session", fee: fee, msgs: func(*env) []std.Msg { return []std.Msg{k.mk(4_000_000)} }}
+				break
+			}
+		}
+		if wop == nil {
+			r.HarnessError("grant %s permits no spend", t.v.name)
+		}
+		head += " ; " + wop.name
+		if !e.apply(*wop, head+"]", false) || e.bad {
+			r.HarnessError("warm-up spend did not go through: %s", head)
+		}
+	}
+	for _, tu := range t.tuples {
+		var names []string
+		for _, k := range tu {
+			names = append(names, kinds[k].name)
+		}
+		tu := tu
+		op := opDef{name: "s:{" + strings.Join(names, ",") + "}", kind: "session", fee: fee, msgs: func(*env) []std.Msg {
+			var ms []std.Msg
+			for _, k := range tu {
+				ms = append(ms, kinds[k].mk(amtC))
+			}
+			return ms
+		}}
+		label := head + " ; " + op.name + "]"
+		r.Distinct(label)
+		pop := e.push()
+		e.apply(op, label, false)
+		pop()
+	}
+	return true
+}
+
 // ---- exploration -----------------------------------------------------------------------------------------------------------
 
 type node struct {
@@ -709,12 +1061,70 @@ func main() {
 	debug.SetGCPercent(400)
 	r = vk.New("model_checking")
 	r.SetBudget(150*time.Second, 25*time.Minute)
+	if p := os.Getenv("VERIF_C16_PROFILE"); p != "" {
+		f, _ := os.Create(p)
+		pprof.StartCPUProfile(f)
+		defer pprof.StopCPUProfile()
+	}
+	tMain := time.Now()
 	ops := alphabet()
+	initOps(ops)
 	depth, leafExec := 4, false
 	if r.Thorough() {
 		depth, leafExec = 6, true
 	}
 	calibrate()
+
+	// parts B and C first (cheap: a handful of long-lived chains); part A (one chain per visited state) takes the rest
+	kinds := msgKinds()
+	var work []func(e *env) bool
+	hb := historiesB()
+	for _, h := range hb {
+		h := h
+		work = append(work, func(e *env) bool { return runB(e, h, spendOps()) })
+	}
+	maxLen := 3
+	nTuples := 0
+	for _, v := range variantsC {
+		for _, warm := range []bool{false, true} {
+			ml := maxLen
+			if warm {
+				ml = 2
+			}
+			tus := tuplesC(len(kinds), ml)
+			nTuples += len(tus)
+			for lo := 0; lo < len(tus); lo += 100 {
+				t := cTask{v: v, warm: warm, tuples: tus[lo:min(lo+100, len(tus))]}
+				work = append(work, func(e *env) bool { return runC(e, t, kinds) })
+			}
+		}
+	}
+	const workers = 16
+	doneBC := make([]int, workers)
+	r.ParFor(workers, func(w int) {
+		var e *env
+		for i := w; i < len(work); i += workers {
+			if r.Expired() {
+				return
+			}
+			for attempt := 0; attempt < 2; attempt++ {
+				if e == nil {
+					e = newEnvSpec(variantsB[0], true)
+				}
+				if work[i](e) {
+					break
+				}
+				e = nil // a violation in a committed step (reported): this chain is not used any further; once more on a new one
+			}
+			doneBC[w]++
+		}
+	})
+	nBC := 0
+	for _, n := range doneBC {
+		nBC += n
+	}
+	txBC := nTx.Load()
+	tBC := time.Since(tMain)
 	r.Sample(map[string]any{"history": "V1:[m:create(S1) ; s:send(4M) ; s:send(4M) ; s:send(1),fee6M]", "meaning": "5M + 5M spent: a third tx whose fee alone exceeds the remaining budget must not take a fee"})
 	r.Sample(map[string]any{"history": "V1:[m:create(S1) ; s:send(L-fee) ; t:+P-1 ; s:send(4M)]", "meaning": "one second before the period ends the budget is still exhausted; at +P it is fresh"})
 	r.Sample(map[string]any{"history": "V2:[m:create(S1) ; s:run(script spends 4M of the master) ; s:run(…) ; s:run(…)]", "meaning": "undeclared spending from inside a MsgRun script is caught at the bank hook: third run must fail leaving only its fee"})
@@ -773,14 +1183,20 @@ func main() {
 		frontier = next
 		levels = lvl + 1
 	}
+	pprof.StopCPUProfile()
+	fmt.Printf("calibration + parts B,C: %.1fs (%d transitions); part A: %.1fs\n", tBC.Seconds(), txBC, (time.Since(tMain) - tBC).Seconds())
+	r.Sample(map[string]any{"history": "VB1:[m:create(S1) ; t:+201s ; s:send(L-fee) ; s:send(4M)]", "meaning": "after idling two periods the first spend opens ONE new window: the second spend in the same block must not get a fresh budget"})
+	r.Sample(map[string]any{"history": "G1:[m:create(S1) ; s:{call(coin),call(coinx)}]", "meaning": "a granted call first must not clear a later call of the same kind to a realm outside the grant"})
 	r.Assumptions = []string{
+		"parts B/C: histories share long-lived chains; each history revokes the previous session instance and creates a new one (all session state lives in that record); spends after the last block boundary are explored with snapshots (cache layer stacked on the deliver state)",
 		"outflow is the NET decrease of the master's balance over a session-signed tx (a storage refund inside the same tx offsets it); gross movement is not observable from balances",
 		"spend windows of the ledger: start at creation; the first effective session tx at or after start+period opens the next (the documented reset rule), period 0 = lifetime",
 		"the reference model steers exploration only; storage-deposit sizes in it are calibrated from 4 master-signed runs",
 		"state equality = effective dirty entries of the block's cache layer of both stores (see C15 for the cross-check of that observation against full store reads)",
-		"MsgMultiSend is not amino-registered and cannot be sent; a second concurrent session on the same master and a session as non-fee-paying co-signer are not enumerated",
+		"MsgMultiSend is not amino-registered and cannot be sent; a second concurrent session on the same master is not enumerated (a session as non-fee-paying co-signer is: part C tuples starting with the co-signer's message)",
 	}
-	r.Finish(fmt.Sprintf("2 grant variants; breadth-first over the reference-model states reachable by <=%d state-changing steps (creation included), every one of the %d alphabet operations tried at every visited state on a real chain replayed from genesis; accepted deepest steps executed: %v; distinct = distinct histories (prefix + tried op)", depth, len(ops), leafExec),
+	r.Finish(fmt.Sprintf("B: %d histories over idle gaps {0,<1,1-1s,1,1+1s,2-1s,2,2+1s,3.5,10,~1000 periods} x pre-phases, then depth-first over %d spend ops with snapshots; C: %d message tuples (length <=%d over %d kinds) x %d grants through the real app; A: ", len(hb), len(spendOps()), nTuples, maxLen, len(kinds), len(variantsC))+fmt.Sprintf("2 grant variants; breadth-first over the reference-model states reachable by <=%d state-changing steps (creation included), every one of the %d alphabet operations tried at every visited state on a real chain replayed from genesis; accepted deepest steps executed: %v; distinct = distinct histories (prefix + tried op)", depth, len(ops), leafExec),
 		true, map[string]any{"states": nStatesReal.Load(), "transitions": nTx.Load(), "traces_validated_against_impl": nTx.Load(), "chains_built": nChains.Load(),
-			"depth": depth, "levels_completed": levels, "alphabet": len(ops), "state_tasks": total, "calibrated_grow_deposits": growDeposit})
+			"depth": depth, "levels_completed": levels, "alphabet": len(ops), "state_tasks": total, "calibrated_grow_deposits": growDeposit,
+			"partB_histories": len(hb), "partC_tuples": nTuples, "partBC_work_items_done": nBC, "partBC_work_items": len(work), "partBC_transitions": txBC})
 }
